@@ -128,7 +128,7 @@ CHECKS = {
         note="the ANS mask / table-size agreement is decided under C02 (R-UNSAFE-b); alias-table construction, prefix lookup tables and hybrid-integer expansion are not decided",
         ref="DESIGN.md section 8.9"),
     "C19": dict(
-        technique="comparison of rustc-evaluated colour constants and recognition tables with references transcribed from the cited standards or derived by formula; writer/reader agreement of the cicp tag layout (offset, element index, codes) extracted from MIR; backward data-flow slice of the recovered chromaticities (no range-limiting operation); sibling agreement of the sign handling in the two scalar directions of each transfer curve; path independence of the TRC-presence store from the curve-recognition store in detect_profile_info; decision table of EnumColourEncoding::cicp over the enum values (abstract evaluation of MIR)",
+        technique="comparison of rustc-evaluated colour constants and recognition tables with references transcribed from the cited standards or derived by formula; writer/reader agreement of the cicp tag layout (offset, element index, codes) extracted from MIR; backward data-flow slice of the recovered chromaticities (no range-limiting operation); sibling agreement of the sign handling in the two scalar directions of each transfer curve; path independence of the TRC-presence store from the curve-recognition store in detect_profile_info; decision table of EnumColourEncoding::cicp over the enum values (abstract evaluation of MIR); evaluation of the scalar transfer functions from MIR against the curves of the cited standards",
         text="Claimed narrowly: the named colour constants. Chromaticities of the enumerated white points and primaries, the Bradford "
              "matrix and its inverse, the HLG and PQ constants equal the values of the cited standards, and the ICC parser's recognition "
              "tables map the same chromaticities to the same enum values the synthesiser writes. Does not decide anything numerical about "
